@@ -14,3 +14,13 @@ def run(rep, tier, seed):
         rep.assume("bounded part for nth/consecutive/level not built yet")
         return
     bounded_C04.run(rep, tier, seed)
+
+
+def replay(path):
+    import json
+    d = json.load(open(path))
+    if d.get("module", "").startswith("checks.bounded_") or "case" in d:
+        from checks import bounded_C04
+        return bounded_C04.replay(path)
+    from vlib.harness import replay_file
+    return replay_file(path)
